@@ -141,6 +141,17 @@ def job(arg):
     with numpy.errstate(all="ignore"):
         for it in items:
             n += 1
+            if mode == "huge-small":
+                size, flags = it
+                import functional_algorithms.utils as U
+
+                fi = numpy.finfo(t)
+                with warnings.catch_warnings():
+                    warnings.simplefilter("ignore")
+                    r = U.real_samples(size, dtype=t, include_infinity=flags[0], include_zero=flags[1], include_subnormal=flags[2], include_nan=flags[3], include_huge=True, nonnegative=flags[5], unique=flags[6])
+                if not (r == numpy.nextafter(fi.max, t(0))).any() and len(fails) < 4:
+                    fails.append(dict(size=size, flags=dict(zip(("include_infinity", "include_zero", "include_subnormal", "include_nan", "include_huge", "nonnegative", "unique"), flags)), errors=["next-to-largest value missing although include_huge=True"]))
+                continue
             if mode == "default":
                 size, flags = it
                 errs = check_default(t, tn, size, flags)
@@ -186,6 +197,8 @@ def run(rep, tier, prop="C19"):
         items = [(s, f) for s in sizes for f in itertools.product((False, True), repeat=7)]
         k = max(1, len(items) // 8)
         jobs += [("default", tn, items[i : i + k]) for i in range(0, len(items), k)]
+        items = [(s, f) for s in (6, 7, 8, 9, 10, 11) for f in itertools.product((False, True), repeat=7) if f[4]]
+        jobs.append(("huge-small", tn, items))
         pairs = bound_pairs(t, rng, 100 if tier == "quick" else 1000)
         items = [(s, a, b, z, sub, u) for (a, b) in pairs for s in sizes for z in (False, True) for sub in (False, True) for u in (False, True) if s <= 1000]
         k = max(1, len(items) // 8)
@@ -196,9 +209,9 @@ def run(rep, tier, prop="C19"):
             seen[(mode, tn)] = seen.get((mode, tn), 0) + n
             agg.setdefault((mode, tn), []).extend(fails)
     for tn in TYPES:
-        for mode in ("default", "bounds"):
+        for mode in ("default", "bounds", "huge-small"):
             lst = agg.get((mode, tn), [])
-            rep.add(core.decided("%s/bounded/real_samples[%s]/%s" % (prop, "default-bounds" if mode == "default" else "user-bounds", tn), prop, not lst and seen.get((mode, tn), 0) > 0, functions=("utils.real_samples",), text="bounded stand-in: real_samples, %s, %d calls" % (mode, seen.get((mode, tn), 0)), detail=dict(failures=lst[:4], calls=seen.get((mode, tn), 0)), kind="bounded", solver="native-run", meta=dict(part="bounded", fails=lst[:4], t=tn, mode=mode)))
+            rep.add(core.decided("%s/bounded/real_samples[%s]/%s" % (prop, {"default": "default-bounds", "bounds": "user-bounds", "huge-small": "next-to-largest,sizes-6..11"}[mode], tn), prop, not lst and seen.get((mode, tn), 0) > 0, functions=("utils.real_samples",), text="bounded stand-in: real_samples, %s, %d calls" % (mode, seen.get((mode, tn), 0)), detail=dict(failures=lst[:4], calls=seen.get((mode, tn), 0)), kind="bounded", solver="native-run", meta=dict(part="bounded", fails=lst[:4], t=tn, mode=mode)))
     rep.bounded.append(dict(what="the real real_samples executed natively: default bounds with every combination of the seven flags, and directed user bounds (same sign, straddling zero, zero and subnormal bounds, neighbouring values) with include_zero / include_subnormal / unique", bound="sizes %s; %s" % (list(sizes), "all 128 flag combinations"), counted_as_proved=False))
 
 
